@@ -186,6 +186,16 @@ func vSkeleton(id int) []string {
 			ks = append(ks, string(b))
 		}
 		return vUniqSortedBig(ks)
+	case 23, 24:
+		return vPrefixLowByte(id == 24)
+	case 25: // like 19 with the highest byte values (labels up to 0xff in nested 257-bit nodes)
+		var ks []string
+		for a := 0; a < 12; a++ {
+			for b := 0; b < 12; b++ {
+				ks = append(ks, string([]byte{byte(0xf4 + a), byte(0xf4 + b)}))
+			}
+		}
+		return ks
 	case 19: // 12 first bytes x 12 second bytes: a 257-bit root over twelve 257-bit nodes
 		var ks []string
 		for a := 0; a < 12; a++ {
@@ -300,6 +310,26 @@ func vSkeleton(id int) []string {
 		return vUniqSorted(ks)
 	}
 	panic("unknown skeleton")
+}
+
+// vPrefixLowByte: under eight first bytes, a key K of 9, 10, 15, 17, 25, 33, 41 or 63 bytes that
+// is a proper prefix of the key(s) after it, which continue with a byte below 0x10 (a
+// separator): pairs {K, K+0x05}, or triples {K, K+"\x00email", K+"\x00name"}.
+func vPrefixLowByte(triples bool) []string {
+	base := make([]byte, 64)
+	for i := range base {
+		base[i] = byte('a' + (i*7+i/13)%23)
+	}
+	var ks []string
+	for i, l := range []int{9, 10, 15, 17, 25, 33, 41, 63} {
+		k := string(append([]byte{byte('A' + i)}, base[:l-1]...))
+		if triples {
+			ks = append(ks, k, k+"\x00email", k+"\x00name")
+		} else {
+			ks = append(ks, k, k+"\x05")
+		}
+	}
+	return ks
 }
 
 // vFullByteFan: the 256 one-byte keys 0x00..0xff, two of them extended (so the root is not the
